@@ -114,7 +114,7 @@ func (s *Snapshot) hashInto(h interface{ Write([]byte) (int, error) }, clock boo
 		fmt.Fprintf(h, "H%d T%d X%d;", s.Height, s.Time, s.TxCount)
 	}
 	for _, v := range s.Staking {
-		fmt.Fprintf(h, "V%s:%v:%d;", v.Oper, v.Bonded, v.Power)
+		fmt.Fprintf(h, "V%s:%v:%d:%v;", v.Oper, v.Bonded, v.Power, v.Unbonding)
 	}
 }
 
